@@ -18,7 +18,16 @@ from concurrent.futures import ThreadPoolExecutor
 import numpy as np
 import odl
 
-from ..tlc import run_tlc
+from ..tlc import run_tlc, parse_fails
+
+
+class _FailM(object):
+    def __init__(self, eid, cl):
+        self._g = {2: str(eid), 3: cl}
+
+    def group(self, k):
+        return self._g[k]
+
 from ..concrete import Concrete, cnum_to_scalar, lattice_den
 from ..common import dumps, MachineryError
 
@@ -528,18 +537,18 @@ def run(ctx):
     nfail = 0
     for p, res in vres:
         ctx.add_tlc('trace-' + os.path.basename(p), res)
-        for line in res.output.splitlines():
-            m = re.match(r'<<"FAIL", (\d+), (\d+), (.*)>>$', line.strip())
-            if m:
+        for _ln, _eid, _cl in parse_fails(res.output):
+            if True:
                 nfail += 1
+                m = _FailM(_eid, _cl)
                 eid = int(m.group(2))
                 ev, info, combo = events[eid]
-                clauses = sorted(set(re.findall(r'<<"([\w-]+)"', m.group(3))))
+                clauses = sorted(set(re.findall(r'<<\s*"([\w-]+)"', m.group(3))))
                 for clause in clauses:
                     act = ev['act']
                     cl = clause
                     if clause == 'value':
-                        objs = [int(o) for o in re.findall(r'<<"value", (\d+)>>', m.group(3))]
+                        objs = [int(o) for o in re.findall(r'<<\s*"value",\s*(\d+)\s*>>', m.group(3))]
                         cl = 'value' if target(act) in objs else 'frame'
                     ctx.violation(signature(act, combo, cl),
                                   {'stage': 'trace', 'event': ev, 'concretisation': list(combo), 'info': info,
